@@ -236,7 +236,7 @@ func main() {
 		fmt.Fprintln(os.Stderr, err)
 		os.Exit(2)
 	}
-	watchdog := time.AfterFunc(900*time.Second, func() {
+	watchdog := time.AfterFunc(240*time.Second, func() {
 		emit(w, map[string]interface{}{"op": "deadlock", "hist": 0})
 		w.Flush()
 		os.Exit(3)
